@@ -9,14 +9,15 @@ CHECKS = {
     "C04": {
         "rule": ("inputs drawn per matcher/handler from: structure-aware generators that visit boundary values of every "
                  "length-bearing field while keeping lengths self-consistent, byte-level mutations and every-point truncations "
-                 "of them, cross-protocol messages and uniform noise; 43 matcher configurations (TCP- and UDP-like) and 6 "
-                 "handler chains through RouteList.Compile with generated segmentation. Non-trivial = not uniform noise; "
+                 "of them, cross-protocol messages, short text lines with every line ending, and uniform noise; 45 matcher "
+                 "configurations (TCP- and UDP-like), sequences of 2-4 matchers (half of them of the same kind, a share reserved for QUIC) consulted for ONE connection as "
+                 "the routes of a list are, and 6 handler chains through RouteList.Compile with generated segmentation. Non-trivial = not uniform noise; "
                  "distinct = distinct (target, input bytes, segmentation)."),
         "assumptions": [
             "allocation is measured as runtime.MemStats.TotalAlloc delta around one Match/Handle call in a single-goroutine process; limit 32 x MaxMatchingBytes (256 KiB), doubled for the crypto/tls handshake",
             "QUIC inputs are the Initial packets of the repository's own test plus synthetic long-header packets; no independent QUIC client is driven",
         ],
-        "min_classes": {"quick": {"C04/mutated": 1000, "C04/truncated": 1000, "C04/well-formed-boundary": 3000},
+        "min_classes": {"quick": {"C04/mutated": 1000, "C04/truncated": 1000, "C04/well-formed-boundary": 3000, "C04/short-lines": 2000, "C04/several-matchers-one-connection": 1000},
                         "thorough": {"C04/mutated": 10000}},
         "runs": [
             {"name": "replay+rapid", "pkg": "./c04", "run": "TestReplay|TestMatchersNoPanicBoundedAlloc|TestHandlersNoPanicBoundedAlloc|TestSeveralMatchersOneConnection",
@@ -28,10 +29,11 @@ CHECKS = {
     "C18": {
         "rule": ("byte strings of every length 0..max+3 around each codec's size bounds (enumerated) plus rapid-drawn lengths with random and "
                  "structure-shaped content (valid opcode, consistent trailing length, chunked winbox bodies with surplus/missing bytes); "
-                 "messages with fields over their full ranges for serialise-then-parse. 16 parser/serialiser pairs. Non-trivial = input "
+                 "messages with fields over their full ranges for serialise-then-parse; 2-6 accepted messages serialised one after the other or concurrently, each of which "
+                 "must still read as its input afterwards. 16 parser/serialiser pairs. Non-trivial = input "
                  "accepted (round trip exercised) or length within 3 of a bound; distinct = distinct (codec, bytes)."),
         "assumptions": ["winbox: no upper length bound is asserted (the protocol documents none); RDPToken/MessageTransport are variable-length by definition"],
-        "min_classes": {"quick": {"C18/accepted": 5000, "C18/message-roundtrip": 1000}},
+        "min_classes": {"quick": {"C18/accepted": 5000, "C18/message-roundtrip": 1000, "C18/several-messages-alive": 1000}},
         "runs": [
             {"name": "replay+rapid", "pkg": "./c18", "run": ".", "rapid_checks": {"quick": 3000, "thorough": 200000},
              "shards": {"quick": 1, "thorough": 16}, "timeout": {"quick": 600, "thorough": 7200}},
@@ -119,12 +121,13 @@ CHECKS = {
                  "payloads 0..20 KiB, header split at a generated point / at the boundary / byte-wise / coalesced with the payload, allow lists (none, matching, non-matching, "
                  "overlapping+duplicate, other family) with peers v4/v6, with and without a prefetching proxy_protocol matcher; plus every split point of 8 header kinds. "
                  "Observed: bytes, addresses and placeholders seen by a recorder behind the handler and remote_ip/local_ip matchers in a following subroute. "
-                 "send: proxy handler v1/v2 to a loopback upstream, client v4/v6, with a received header first (composition), parsed by an independent parser. "
+                 "send: proxy handler v1/v2 to 1-3 loopback peers, client v4/v6, with a received header first (composition), parsed by an independent parser; and a server-speaks-first "
+                 "exchange in which the upstream must hold a complete header while the client is still silent. "
                  "Non-trivial = header split across reads or coalesced with payload, TLVs, allow-list miss, composition or prefetched bytes; distinct = distinct case."),
         "assumptions": ["v2 headers with TLVs are rejected by the PROXY protocol library in use: then the connection must fail closed (no handler runs); acceptance is not demanded",
                         "v1 UNKNOWN declares no addresses; what later matchers see is not judged (the library reports an empty TCP address)",
                         "v1 cannot carry UDP addresses: composition UDP->v1 is not judged"],
-        "min_classes": {"quick": {"C12/outcome/accepted": 1500, "C12/outcome/passed-through": 300, "C12/outcome/rejected": 50, "C12/composition": 100, "C12/every-split-cases": 500}},
+        "min_classes": {"quick": {"C12/outcome/accepted": 1500, "C12/outcome/passed-through": 300, "C12/outcome/rejected": 50, "C12/composition": 100, "C12/every-split-cases": 500, "C12/send-server-speaks-first": 500}},
         "runs": [
             {"name": "recv+send", "pkg": "./c12", "run": ".", "rapid_checks": {"quick": 3000, "thorough": 200000},
              "shards": {"quick": 1, "thorough": 16}, "timeout": {"quick": 600, "thorough": 7200}},
@@ -132,7 +135,7 @@ CHECKS = {
     },
     "C16": {
         "rule": ("generated handler configurations (command subsets in any case and via placeholders, default commands; credential maps with empty names, empty passwords, "
-                 "placeholders, unset placeholders) x generated client byte scripts (version, method lists, user/pass sub-negotiation right/wrong/unknown/empty, command 0-255 "
+                 "placeholders, unset placeholders) x generated client byte scripts (version, method lists, user/pass sub-negotiation right/wrong/unknown/empty or exactly a configured entry with its placeholders resolved - usable or not -, command 0-255 "
                  "samples, IPv4/domain/IPv6/garbage address types, truncations) through the real handler over loopback TCP with a loopback target listener; in a third of the cases 0-2 other socks5 handlers with generated configurations of their own are provisioned before and after the handler under test. Oracle (safety): "
                  "target accepts / REP=0 / new UDP socket only if the configuration permits the command for that client. Non-trivial = credentials configured and a "
                  "syntactically valid request; distinct = distinct (config, session)."),
@@ -226,14 +229,15 @@ CHECKS = {
         ],
     },
     "C03": {
-        "rule": ("the proxy handler on real transports: downstream loopback TCP, Unix socket or TLS-terminated; 1-3 harness peers of one upstream over TCP or Unix sockets; client and "
+        "rule": ("the proxy handler on real transports: downstream loopback TCP, Unix socket or TLS-terminated; 1-3 harness peers of one upstream over TCP, Unix sockets or TLS (the proxy dials with TLS); TLS "
+                 "clients speak 1.3 or 1.2, and half of the latter send their last record and close_notify in one piece (end of stream read together with the last bytes); client and "
                  "peer payloads 0 .. 200 KB (thorough: 1 MiB) drawn log-style, chunk sizes 7 B .. whole, pauses; peers answer after the client's EOF (request/response over "
                  "half-close), at once and then half-close while they keep reading, or duplex; the client sends first or only after it has seen the upstreams' EOF; a matcher "
                  "prefetches 0-6000 bytes first; faults: client or one peer resets (SO_LINGER 0) at a generated offset. Peers use disjoint byte alphabets so that the "
                  "interleaving at the client can be split. Oracle: exact streams and EOF in both directions, handler returns, upstream connections closed, fd count restored; "
                  "fault cases: prefixes only, handler returns. Non-trivial = both directions non-empty with data sent after the other side's EOF, or >= 2 peers, or prefetched bytes."),
         "assumptions": ["interleavings of the relay goroutines are sampled", "downstreams without half-close (behind proxy_protocol/throttle, UDP) are outside the 'wherever the transport offers' clause"],
-        "min_classes": {"quick": {"C03/tls": 40, "C03/unix": 40, "C03/fault": 20, "C03/half-close-with-data-after-eof": 60, "C03/peers/3": 20, "C03/prefetched": 40}},
+        "min_classes": {"quick": {"C03/tls": 40, "C03/unix": 40, "C03/fault": 20, "C03/half-close-with-data-after-eof": 60, "C03/peers/3": 20, "C03/prefetched": 40, "C03/upstream-tls": 40, "C03/tls12-close-with-last-record": 8}},
         "runs": [
             {"name": "relay", "pkg": "./c03", "run": ".", "rapid_checks": {"quick": 100, "thorough": 5000},
              "shards": {"quick": 4, "thorough": 16}, "timeout": {"quick": 600, "thorough": 7200}},
@@ -242,15 +246,14 @@ CHECKS = {
     "C11": {
         "tags": ["verif_proxy"],
         "rule": ("four generated real-time scenarios on the proxy handler loaded as a Caddy module, against loopback listeners the harness opens and closes (a closed port refuses at once): "
-                 "(1) passive window: fail_duration 200-800 ms, max_fails 1-3, histories of 3-14 connects/sleeps; the outcome of each connect and the failure counter are compared "
-                 "with a model of remembered failure times, only at instants >= 80 ms from a window edge; counters at rest; (2) retry window: try_duration 0-1 s, try_interval "
+                 "(1) passive window: fail_duration 200-800 ms, max_fails 1-3 or omitted, histories of 3-14 connects/sleeps/bursts; the outcome of each connect and the failure counter are compared "
+                 "with a model in which every remembered failure carries the interval in which it was counted ('too early' is final, 'too late' is given 2-3 s and dropped after a process stall); counters at rest; (2) retry window: try_duration 0-1 s, try_interval "
                  "50-250 ms, upstream stays down or comes back inside the window: duration bounds, last error, attempts spaced; (3) active checks: interval 50-100 ms, listener "
-                 "toggled 2-6 times, health flag follows within 3 intervals + 150 ms; (4) connection limits 1-3 via max_connections or unhealthy_connection_count: histories of "
+                 "toggled 2-6 times (in half of the cases while a proxied connection to the peer stays open and the peer only stops accepting), health flag follows within 3 intervals + 150 ms (+ 3 s patience); (4) connection limits 1-3 via max_connections or unhealthy_connection_count: histories of "
                  "opens and releases of held proxied connections, which upstream accepted each. Non-trivial = a failure that expires or reaches max_fails, a non-zero try_duration, "
                  "any active/limit history; distinct = distinct (settings, history)."),
-        "assumptions": ["peer counters are read through an overlay export shim; failure times are taken as the midpoint of the failing call (the 80 ms guard band covers the uncertainty)",
-                        "upper time bounds use slack >= 1 s"],
-        "min_classes": {"quick": {"C11/passive-window": 15, "C11/retry-window": 15, "C11/active-checks": 15, "C11/connection-limit": 15, "C11/reload-or-active-recovery": 10}},
+        "assumptions": ["peer counters are read through an overlay export shim", "upper time bounds use slack >= 1 s and are dropped when the stall monitor saw the process held up for > 40 ms"],
+        "min_classes": {"quick": {"C11/passive-window": 15, "C11/retry-window": 15, "C11/active-checks": 15, "C11/connection-limit": 15, "C11/reload-or-active-recovery": 10, "C11/active-checks-with-open-connection": 4}},
         "runs": [
             {"name": "health", "pkg": "./c11", "run": ".", "rapid_checks": {"quick": 5, "thorough": 180},
              "shards": {"quick": 6, "thorough": 16}, "timeout": {"quick": 600, "thorough": 7200}},
@@ -296,8 +299,8 @@ CHECKS = {
         "rule": ("per protocol a generator of complete first messages over the field ranges, single-field corruptions of them and filter configurations, each paired with the verdict the "
                  "wire definition and the matcher's documentation demand (must match / must not match / unspecified - the last is not judged): ssh, xmpp, postgres (SSLRequest, "
                  "StartupMessage v3/v2, parameters), socks4 (commands, ports, networks), socks5 (method lists vs auth_methods), proxy_protocol (v1/v2 signatures), regexp (pattern x "
-                 "count), local_ip/remote_ip/not (CIDR sets incl. IPv6), clock (windows, swapped bounds, 00:00:00 as end of day, fixed offsets and IANA zones; time injected through "
-                 "l4.conn.wrap_time), dns (TCP/UDP framing, header flags, trailing bytes, allow/deny/regexp rules, default_deny, prefer_allow), rdp (cookie/token/custom x RDP_NEG_REQ x "
+                 "count), local_ip/remote_ip/not (CIDR sets incl. IPv6; IPv4 peers in 4- and 16-byte form), clock (windows, swapped bounds, 00:00:00 as end of day, fixed offsets and IANA zones; time injected through "
+                 "l4.conn.wrap_time), dns (TCP/UDP framing, header flags, trailing bytes, allow/deny/regexp rules, default_deny, prefer_allow), rdp (cookie/token incl. port fields beyond 16 bits/custom x RDP_NEG_REQ x "
                  "correlation info x the five filters), wireguard (initiation/keepalive sizes, type, reserved bytes vs zero), openvpn (plain/auth/crypt hard resets signed with "
                  "generated keys, digests, replay ids, timestamps, modes; TCP and UDP), winbox (modes, user-name alphabet, key length, parity, filters), http (request line, "
                  "host/path/method/header sub-matchers, HTTP/2 prior knowledge). Non-trivial = a filtered or corrupted case with a specified verdict; distinct = distinct (config, message)."),
